@@ -63,7 +63,7 @@ Proof.
 Qed.
 
 Lemma lookup_put_same st k e :
-  lookup (store_put st k e) k = if live (rnow st) e then Some e else None.
+  lookup (store_put st k e) k = if live (expiry_inclusive st) (rnow st) e then Some e else None.
 Proof. unfold lookup, store_put; cbn. now rewrite find_put_same. Qed.
 
 Lemma lookup_put_other st k k' e : bulk_eqb k' k = false ->
@@ -77,10 +77,40 @@ Lemma lookup_del_other st k k' : bulk_eqb k' k = false ->
   lookup (store_del st k) k' = lookup st k'.
 Proof. intro N. unfold lookup, store_del; cbn. now rewrite find_remove_other. Qed.
 
-Lemma lookup_live st k e : lookup st k = Some e -> live (rnow st) e = true.
+Lemma lookup_live st k e : lookup st k = Some e -> live (expiry_inclusive st) (rnow st) e = true.
 Proof.
   unfold lookup. destruct (find k (rdata st)) as [e'|]; intro H; [|discriminate].
-  destruct (live (rnow st) e') eqn:L; [|discriminate]. inversion H; subst. exact L.
+  destruct (live (expiry_inclusive st) (rnow st) e') eqn:L; [|discriminate]. inversion H; subst. exact L.
+Qed.
+
+(* the two expiry conventions *)
+Lemma before_lt incl x t : x < t -> before incl x t = true.
+Proof. intro H. destruct incl; cbn; [apply Z.ltb_lt|apply Z.leb_le]; lia. Qed.
+
+Lemma before_gt incl x t : t < x -> before incl x t = false.
+Proof. intro H. destruct incl; cbn; [apply Z.ltb_ge|apply Z.leb_gt]; lia. Qed.
+
+Lemma before_mono incl x y t : x <= y -> before incl y t = true -> before incl x t = true.
+Proof.
+  intros H. destruct incl; cbn; intro B; [apply Z.ltb_lt in B; apply Z.ltb_lt|apply Z.leb_le in B; apply Z.leb_le]; lia.
+Qed.
+
+Lemma before_false_mono incl x y t : x <= y -> before incl x t = false -> before incl y t = false.
+Proof.
+  intros H. destruct incl; cbn; intro B; [apply Z.ltb_ge in B; apply Z.ltb_ge|apply Z.leb_gt in B; apply Z.leb_gt]; lia.
+Qed.
+
+Lemma before_false_ge incl x t : before incl x t = false -> t <= x.
+Proof. destruct incl; cbn; intro B; [apply Z.ltb_ge in B|apply Z.leb_gt in B]; lia. Qed.
+
+Lemma before_true_le incl x t : before incl x t = true -> x <= t.
+Proof. destruct incl; cbn; intro B; [apply Z.ltb_lt in B|apply Z.leb_le in B]; lia. Qed.
+
+Lemma before_shift incl a x t : before incl (a + x) (a + t) = before incl x t.
+Proof.
+  destruct incl; cbn.
+  - destruct (x <? t) eqn:E; [apply Z.ltb_lt in E; apply Z.ltb_lt|apply Z.ltb_ge in E; apply Z.ltb_ge]; lia.
+  - destruct (x <=? t) eqn:E; [apply Z.leb_le in E; apply Z.leb_le|apply Z.leb_gt in E; apply Z.leb_gt]; lia.
 Qed.
 
 (* integers as Lua numbers *)
